@@ -117,6 +117,12 @@ def run(ctx):
         for fill in ([0], [0xff], None):
             d = bytes(fill * ln) if fill else bytes(rng.randrange(256) for _ in range(ln))
             cases.append(('varstr %s' % hexp(d), _py(lambda: varstr(d).hex() or '-'), True))
+    # payloads whose bytes read as text: hexadecimal digits, digits, blanks (a byte string is data, whatever it looks like)
+    for ln in [1, 2, 3, 4, 8, 16, 32, 64, 66, 0xfc, 0xfd, 0xfe, 254, 300, 0xffff, 0x10000] + [rng.randrange(1, 600) for _ in range(30)]:
+        for alphabet in (b'a', b'0123456789abcdef', b'0123456789ABCDEF', b'0123456789', b' ', b'0 \t\n'):
+            d = bytes(rng.choice(alphabet) for _ in range(ln))
+            ctx.count('varstr:text-looking')
+            cases.append(('varstr %s' % hexp(d), _py(lambda: varstr(d).hex() or '-'), True))
     ctx.compare(cases, 'boundary')
 
     # ---- script numbers ---------------------------------------------------------------------------
